@@ -304,6 +304,20 @@ def processTree (P : Params) (fuel : Nat) (st : State) : Outcome :=
     | .ok st2 => .ok (cleanFiles st2)
     | o => o
 
+/-! ### the counter logic of the work loop when items can be put on hold
+
+`process` computes `total_not_done` once, resets `done_count` to 0 at the top of every pass
+and leaves the loop only when `done_count == total_not_done`. `genLoop total pending ds`
+replays that logic for passes in which `ds = [d₁, d₂, …]` items finish (each `dₖ` capped by
+what is still pending): `true` iff the loop exits within those passes. With the built-in
+rules every pending item finishes in the first pass (`passNodes_doneCount`); a user-defined
+rule overriding `Rule::require_content` can put items on hold (finding F26). -/
+def genLoop (total : Nat) : Nat → List Nat → Bool
+  | _, [] => false
+  | pending, d :: ds =>
+    let d' := min d pending
+    if d' = total then true else genLoop total (pending - d') ds
+
 /-! ### the watcher level (src/cli/utils/file_watcher.rs: `process_events`, `run_worker_tree`) -/
 
 inductive Op where
